@@ -116,12 +116,24 @@ def anchors(doc):
     return out
 
 
+def merge_bookkeeping(doc):
+    """For every hash using a YAML merge key: which keys are its own (what a
+    dump writes out) and how many hashes it merges in."""
+    out = []
+    for path, node, _parent, _ref in positions(doc):
+        if is_map(node) and getattr(node, "merge", None):
+            out.append([repr(path), len(node.merge),
+                        [cscalar(k) for k, _ in node.non_merged_items()]])
+    return out
+
+
 def snapshot(doc):
     """Everything a frame condition compares."""
     return {
         "data": canon(doc),
         "anchors": sorted((repr(k), v) for k, v in anchors(doc).items()),
         "cells": [[repr(p) for p in g] for g in alias_cells(doc)],
+        "merge": merge_bookkeeping(doc),
     }
 
 
